@@ -2,7 +2,9 @@
 Exhaustive over small carriers (all pairs; all triples when carrier^3 fits the budget), real methods, laws as oracle."""
 import json
 
-from vlib import core, libmon
+import os
+
+from vlib import core, libmon, sanitize
 
 LEVEL = 'exploration'
 
@@ -31,6 +33,18 @@ def run(ctx, only=None):
     ctx.cov['per_type'] = {r['type']: {'carrier': r['carrier'], 'pairs': r['pairs'], 'triples': r['triples'], 'all_triples': r['exhaustive_triples']} for r in types}
     for r in types[:3]:
         ctx.sample(r)
+    if ctx.tier == 'thorough' or os.environ.get('VERIF_SAN'):
+        # Miri on the types with shared-ownership / heap paths (Rc, Arc, Box, Set, BoundedSet, Product of sets), reduced carriers
+        mrecs, ub = sanitize.miri_libmon(ctx, 'c16_lattice', ['--miri=1', '--small=1', '--triples=30'], timeout=2400)
+        mt = [r for r in mrecs if 'carrier' in r]
+        ctx.cov['miri'] = {'types': len(mt), 'pairs': sum(r['pairs'] for r in mt), 'ub_report': bool(ub), 'flags': sanitize.MIRI_FLAGS}
+        recs += [r for r in mrecs if r.get('violation')]
+        if ub == 'timeout' or (not ub and not any(r.get('done') for r in mrecs)):
+            ctx.inconc('Miri pass did not finish')
+        elif ub and '/repo/' in ub:
+            ctx.violation('miri_ub', {'case': 'miri', 'report': ub.split('\n')[-50:], 'summary': 'Miri: undefined behaviour in ascent_base under the lattice monitor'}, {'kind': 'miri_ub'})
+        elif ub:
+            ctx.inconc('Miri error without a /repo frame: %s' % ub[-300:])
     for v in [r for r in recs if r.get('violation')]:
         ctx.violation('%s_%s' % (v['type'], v['law']), {'case': v['type'], 'law': v['law'], 'witness': v['witness'],
                                                         'summary': '%s violates %s: %s' % (v['type'], v['law'], v['witness'])},
